@@ -5,10 +5,13 @@ from props import taskworld
 
 T = "task.Task"
 FUNCS = ["task.WSGITask.execute.<start_response>", T + ".build_response_header", T + ".set_close_on_finish", T + ".has_body", T + ".write",
-         T + ".remove_content_length_header", "task.ErrorTask.execute"]
+         T + ".remove_content_length_header", "task.ErrorTask.execute",
+         # these keep the class invariant "stored status / headers are CR/LF-free" (they are C03/C09's subject otherwise)
+         T + ".finish", T + ".service", "task.WSGITask.execute"]
 PATS = ("C08", "start_response", "list-elem-fact", "establishes", "build_response_header/cut", "build_response_header/loop", "build_response_header/inv",
         "build_response_header/raises", "build_response_header/frame", "coverage:", "set_close_on_finish", "remove_content_length_header", "nothing-sent-if-head-cannot-be-built",
-        "write/raises", "write/inv:C08", "ErrorTask.execute/inv:C08", "ErrorTask.execute/raises")
+        "write/raises", "write/inv:C08", "ErrorTask.execute/inv:C08", "ErrorTask.execute/raises",
+        "inv:C08", "inv-entry:C08", "inv-preserved:C08", "pre:operator-ident-has-no-cr-lf")
 
 
 def main(argv=None):
